@@ -44,6 +44,9 @@ func runRace(e *ev.Env) {
 					}
 					if wr.Chance(1, 20) {
 						q.NoCache = true
+						if wr.Bool() {
+							q.CC = ccSpell(wr, "no-cache", false)
+						}
 					}
 					if cf.ExpGen && wr.Bool() {
 						q.ExpSec = wr.Range(1, 2)
